@@ -1,7 +1,7 @@
 HOOK_COMMITS = ["f2e3e94"]
 NOTES = "Runtime monitoring and sanitizers only. bin/check <id> --tier quick|thorough; VERIF_SEED seeds all random choices. Known findings: /verif/known_findings.json. See DESIGN.md."
 ENGINES = [
-    {"name": "ptrace-stepper", "path": "harness/w_proc/src/step.rs", "serves_properties": ["C04"], "kind_free_text": "PTRACE_SYSCALL stepping of scenario children; kill or hold at any system-call stop; marker syscalls for phases and atomic writes"},
+    {"name": "ptrace-stepper", "path": "harness/w_proc/src/step.rs", "serves_properties": ["C04", "C07"], "kind_free_text": "PTRACE_SYSCALL stepping of scenario children; kill or hold at any system-call stop; marker syscalls for phases and atomic writes"},
     {"name": "allocation-shadow", "path": "harness/w_contain/src/c15.rs", "serves_properties": ["C15"], "kind_free_text": "interval-set shadow of live allocations, pattern fill, guard bytes, case shrinking"},
     {"name": "container-differential", "path": "harness/w_contain/src/c16.rs", "serves_properties": ["C16"], "kind_free_text": "exhaustive short histories + random long ones against std models, element life table"},
     {"name": "sequential-models", "path": "harness/w_ports/src", "serves_properties": ["C01", "C02", "C08", "C11"], "kind_free_text": "model-based random API histories over local and ipc services; exact reference model compared after every step; canaries; saturation probes; history shrinking"},
@@ -87,5 +87,12 @@ META = {
         "level_text": "Fault enumeration: every inter-syscall crash point (thorough: plus every atomic shared-memory write) of five lifecycle scenarios is injected; the survivor's verdicts, cleanup results, residue and re-usability are classified.",
         "level_note": "Enumerates process death only. Eleven outcome classes that fail on the pinned tree are genuine defects recorded in known_findings.json; any other class, phase or survivor failure is reported.",
         "design_ref": "DESIGN.md section 4 C04",
+    },
+    "C07": {
+        "engine": "ptrace stepper (hold owner / hold observer / kill cleaner) + helper processes",
+        "technique": "cross-process interleaving enumeration by ptrace: verdict queried at every owner step and every observer step; racing and dying cleaner processes",
+        "level_text": "Fault/interleaving enumeration at system-call granularity: every stop of the owner's node create+drop and of the observer's Node::list is a hold point; every stop of a cleaner is a crash point.",
+        "level_note": "Three classes that fail on the pinned tree are genuine defects recorded in known_findings.json (Dead verdict for a node that is shutting down; two uncollectable-residue classes after a cleaner died).",
+        "design_ref": "DESIGN.md section 4 C07",
     },
 }
